@@ -71,12 +71,11 @@ def front_decision(n1d, coord, nthread, npart):
 
     def capture(ppart, starts, dens, box, weights=None, offset=0.0):
         cap['np'] = len(starts) - 1
+        cap['threads'] = rt.nthreads      # the (virtual) numba thread count in effect when the stripes are processed
 
-    def fake_partition(pos, npartition, boxsize, weights=None, coord=0, nthread=-1, sort=False):
-        return pos, np.zeros(npartition + 1, dtype=np.int64), weights
     g = T['front'].__globals__
     g['_tsc_parallel'] = capture
-    g['partition_parallel'] = fake_partition
+    # partition_parallel stays the real kernel (interpreted twin, zero particles): whatever it does to the thread count is seen
     shape = [2, 2, 2]
     shape[coord] = n1d
     dens = np.zeros(shape, dtype=np.float32)
@@ -89,7 +88,7 @@ def front_decision(n1d, coord, nthread, npart):
         return 'reject', str(e)
     except Exception as e:
         return 'error', f'{type(e).__name__}: {e}'
-    return 'accept', cap.get('np')
+    return 'accept', (cap.get('np'), cap.get('threads'))
 
 
 def probes(n1d, npart, coord, dtype, offset_cells):
@@ -154,9 +153,12 @@ def run_config(case):
             if verdict == 'error':
                 probs.append(dict(sig='front:unexpected-error', msg=f'n1d={n1d} nthread={nthread} npartition={npart}: {info}'))
             elif verdict == 'accept':
+                info, eff = info
                 if npart is not None and info != npart:
                     probs.append(dict(sig='front:npartition-not-honoured', msg=f'n1d={n1d} nthread={nthread} npartition={npart} ran with {info}'))
-                if nthread > 1 and info and info > 1:
+                if eff is not None and eff != nthread:
+                    probs.append(dict(sig='front:thread-count-not-honoured', msg=f'n1d={n1d} nthread={nthread} npartition={npart}: {eff} threads in effect when the stripes are processed'))
+                if max(nthread, eff or 1) > 1 and info and info > 1:
                     accepted.setdefault(info, []).append((nthread, npart))
                 if npart is None:
                     default_np[nthread] = info
@@ -252,8 +254,8 @@ def run_sched(case):
     for nthread in NTHREADS[1:]:
         for npart in [None] + list(range(1, n1d + 1)):
             v, info = front_decision(n1d, 0, nthread, npart)
-            if v == 'accept' and info and info > 1:
-                accepted.add(info)
+            if v == 'accept' and info[0] and info[0] > 1:
+                accepted.add(info[0])
     for npart in sorted(accepted):
         for dtype in (np.float32,):
             # one or two particles per stripe, on the abscissae closest to the neighbouring same-phase stripes
@@ -336,8 +338,8 @@ def run_conformance(case):
     with warnings.catch_warnings():
         warnings.simplefilter('ignore')
         ref = tsc.tsc_parallel(pos0.copy(), n1d, BOX, nthread=1)
-        for nthread in (2, 3, 5, 8, 16):
-            for npart in [None] + list(range(2, n1d // 2 + 1, 2)):
+        for nthread in (1, 2, 3, 5, 8, 16):
+            for npart in [None] + (list(range(2, n1d // 2 + 1, 2)) if nthread > 1 else list(range(2, n1d + 1))):
                 try:
                     d = tsc.tsc_parallel(pos0.copy(), n1d, BOX, nthread=nthread, npartition=npart)
                 except ValueError:
